@@ -378,6 +378,14 @@ func getCorpus(name string) *corpusT {
 	switch name {
 	case "mix":
 		c = loadCorpus("mix", mixCommands())
+	case "common": // a small database in which the usual action words occur in (nearly) every entry, and some entries hold nothing else
+		c = loadCorpus("common", []database.Command{
+			{Command: "lsprog", Description: "List installed programs and show their versions", Keywords: []string{"list", "programs"}},
+			{Command: "lsusr", Description: "List users, show groups, find accounts by name", Keywords: []string{"list", "users"}},
+			{Command: "zzalpha", Description: "List, show, find", Keywords: []string{"list"}},
+			{Command: "zzbeta --all", Description: "Show and list and copy", Keywords: []string{"show"}},
+			{Command: "lsdev", Description: "List block devices; show sizes; find by label", Keywords: []string{"devices"}},
+			{Command: "cpdir src dst", Description: "Copy a directory, list what was copied, show progress", Keywords: []string{"copy"}}})
 	case "tie":
 		c = loadCorpus("tie", tieCommands())
 	case "single":
